@@ -75,20 +75,41 @@ theorem advertised_frame_size_enforced (b : Bytes) (h9 : 9 ≤ b.length) (hl : b
     readFrame Gen.c_defaultDataFrameSize b = .err .tooLarge 9 :=
   (C16.too_large_rejected Gen.c_defaultDataFrameSize b (by decide) h9 hl).1
 
-/-- **The peer's SETTINGS_HEADER_TABLE_SIZE persists and bounds the encoder**: after handling a SETTINGS
-frame the encoder's table limit is the value the frame announces (the last one, if several) or, when the
-frame does not mention it, the value the peer had announced before — never a default brought back by an
-unrelated SETTINGS frame (finding F52, repaired). -/
+/-- **The peer's SETTINGS_HEADER_TABLE_SIZE persists and bounds the encoder**: the stream loop, which owns the
+encoder, sets its table limit to the value a SETTINGS frame announces and leaves it alone when the frame does not
+mention it — an unrelated SETTINGS frame no longer brings the default back (finding F52), and the resize no longer
+happens on the read loop in the middle of a header block (finding F34). -/
 theorem encoder_limit_is_peers (r : R) (st : SettingsVal) :
-    (handleSettings r st).s.enc.maxSize = (handleSettings r st).s.peerTableSize ∧
-    (handleSettings r st).s.peerTableSize =
-      (match (st.pairs.filter fun p => p.1 == Gen.c_HeaderTableSize).getLast? with
-        | some (_, v) => v
-        | none => r.s.peerTableSize) := by
+    (applyTableSize r st).s.enc.maxSize = (if st.hasTableSize then st.tableSize else r.s.enc.maxSize) := by
   have hset : ∀ (e : Hpack.EncState) (n : Nat), (e.setMax n).maxSize = n := by
     intro e n; simp only [Hpack.EncState.setMax]; split <;> simp_all
-  simp only [handleSettings, R.emit]
-  exact ⟨hset _ _, rfl⟩
+  simp only [applyTableSize]
+  split <;> simp_all
+
+/-- the read loop no longer touches the encoder -/
+theorem read_loop_leaves_encoder (r : R) (st : SettingsVal) : (handleSettings r st).s.enc = r.s.enc := by
+  simp [handleSettings, R.emit]
+
+/-- a decoded SETTINGS payload says the table size is present exactly when it carries identifier 1, and then
+holds the last such value -/
+theorem table_size_flag (p : Bytes) (s s' : SettingsVal) (h : settingsRead p s = .inl (some s')) :
+    s'.hasTableSize = (s.hasTableSize || (Spec.pairsOf p).any (·.1 = 1)) := by
+  rw [settingsRead_spec] at h
+  cases hb : Spec.firstBad (Spec.pairsOf p) with
+  | some c => rw [hb] at h; cases h
+  | none =>
+    rw [hb] at h
+    injection h with h; injection h with h; subst h
+    simp only [withPairs]
+    generalize Spec.pairsOf p = ps
+    induction ps generalizing s with
+    | nil => simp
+    | cons q qs ih =>
+      simp only [List.foldl_cons, List.any_cons]
+      rw [ih]
+      simp only [Spec.applyPair]
+      repeat' split
+      all_goals simp_all [Bool.or_assoc]
 
 /-! ### what is not proved (known finding, see KNOWN_FINDINGS.txt)
 * F33 — a response header block always goes out as one HEADERS frame, whatever its size: the full model's
